@@ -368,3 +368,423 @@ Proof.
     exists (c_seq_send x), acc. split; [right; exact HR|]. split; [reflexivity|].
     replace (c_seq_send x =? 0) with false by lia. split; [congruence|lia].
 Qed.
+
+(* ================= Part 3: one direction of the wire ================= *)
+
+Lemma wd_lookup_in w i t dg : wd_lookup w i = Some (t, dg) -> In (i, t, dg) (wd_log w).
+Proof.
+  unfold wd_lookup. destruct (find _ _) as [[[n t'] dg']|] eqn:F; [|discriminate].
+  intros E. injection E as <- <-. apply find_some in F as [Hin Hn]. cbn in Hn.
+  assert (n = i) by lia. subst. exact Hin.
+Qed.
+
+Lemma last_cons_indep {A} (l : list A) : forall a d d', last (a :: l) d = last (a :: l) d'.
+Proof. induction l as [|b r IH]; intros a d d'; [reflexivity|]. cbn [last] in *. apply (IH b). Qed.
+
+Lemma gaps_le_snoc G ts : forall prev t, gaps_le G prev ts -> t - last ts prev <= G -> gaps_le G prev (ts ++ [t]).
+Proof.
+  induction ts as [|x r IH]; intros prev t Hg Hl; cbn [app gaps_le] in *; [auto|].
+  destruct Hg as [H1 H2]. split; [exact H1|]. apply IH; [exact H2|].
+  destruct r as [|z r]; [exact Hl|]. rewrite (last_cons_indep r z x prev). exact Hl.
+Qed.
+
+Lemma last_snoc {A} (l : list A) (x d : A) : last (l ++ [x]) d = x.
+Proof. apply last_last. Qed.
+
+Section Direction.
+  (* k: session key; M: keep-alive period of the sender X; tau, d: the network parameters;
+     N0: X's datagram number at the start; v0: the moment X's first keep-alive is counted from *)
+  Variables (k M tau d N0 v0 : Z).
+  Hypothesis HM : 0 <= M.
+  Hypothesis Hd : 0 <= d.
+  Hypothesis Htau : 0 <= tau.
+  Hypothesis Hring : d <= (HALF - 1) * (M + 1).
+
+  (* sx, lkx: X's sequence counter and last-packet time; bfy, lry: Y's receive window and liveness
+     clock; w: the wire X -> Y; clk: the clock; tickx: X's latest update() *)
+  Record dir_inv (sx lkx : Z) (bfy : bitfield) (lry : Z) (w : wdir) (clk tickx : Z) : Prop := {
+    di_n0 : 0 <= N0 <= wd_n w;
+    di_seq : sx = if wd_n w =? 0 then 0 else wire (wd_n w);
+    di_v : lkx <= wd_v w <= clk;
+    di_tick : tickx - wd_v w <= M;
+    di_tickle : tickx <= clk;
+    di_log : forall n t dg, In (n, t, dg) (wd_log w) ->
+               N0 < n <= wd_n w /\ ka_dgram k dg /\ h_seq (d_hdr dg) = wire n /\ (wd_n w - n) * (M + 1) <= lkx - t;
+    di_complete : forall l, N0 < l <= wd_n w -> exists t dg, In (l, t, dg) (wd_log w);
+    di_win : exists m acc, Rx bfy m acc /\ N0 <= m <= wd_n w
+               /\ (forall n t dg, In (n, t, dg) (wd_log w) -> In (n, t) (wd_pend w) \/ (In n acc /\ t <= lry))
+               /\ (forall n t, In (n, t) (wd_pend w) -> ~ In n acc /\ exists dg, In (n, t, dg) (wd_log w));
+    di_lry : lry <= clk;
+    di_live0 : wd_pend w = [] -> wd_v w <= lry;
+    di_live1 : wd_pend w <> [] -> exists n t, In (n, t) (wd_pend w) /\ t - (M + tau) <= lry;
+    di_gaps : gaps_le (M + tau) v0 (em_times w);
+    di_last : last (em_times w) v0 = wd_v w }.
+
+  (* time passes, X does not tick *)
+  Lemma dir_time sx lkx bfy lry w clk tickx now :
+    dir_inv sx lkx bfy lry w clk tickx -> clk <= now -> dir_inv sx lkx bfy lry w now tickx.
+  Proof. intros [] Hn. constructor; auto; lia. Qed.
+
+  (* Y's liveness clock at any admissible moment *)
+  Lemma dir_safe sx lkx bfy lry w clk tickx now :
+    dir_inv sx lkx bfy lry w clk tickx -> clk <= now -> now - tickx <= tau -> on_time w d now ->
+    now - lry <= M + tau + d.
+  Proof.
+    intros [] Hn Ht Ho. destruct (wd_pend w) as [|p r] eqn:Ep.
+    - specialize (di_live2 eq_refl). lia.
+    - destruct di_live3 as (n & t & Hin & Hl); [discriminate|].
+      unfold on_time in Ho. rewrite Ep in Ho. rewrite Forall_forall in Ho. apply Ho in Hin. cbn in Hin. lia.
+  Qed.
+
+  (* X's update() at time now *)
+  Lemma dir_emit sx lkx bfy lry w clk tickx now sx' lkx' dgs :
+    dir_inv sx lkx bfy lry w clk tickx -> clk <= now -> now - tickx <= tau ->
+    ((now - lkx <= M /\ dgs = [] /\ sx' = sx /\ lkx' = lkx)
+     \/ (M < now - lkx /\ sx' = seq_succ sx /\ lkx' = now /\
+         exists dg, dgs = [dg] /\ ka_dgram k dg /\ h_seq (d_hdr dg) = seq_succ sx)) ->
+    dir_inv sx' lkx' bfy lry (wd_emit w now dgs) now now.
+  Proof.
+    intros I Hn Ht [(H1 & -> & -> & ->)|(H1 & -> & -> & dg & -> & Hk & Hs)].
+    - destruct I. cbn [wd_emit fold_left]. constructor; auto; lia.
+    - destruct I. cbn [wd_emit fold_left]. unfold wd_emit1.
+      assert (Hsq : seq_succ sx = wire (wd_n w + 1)).
+      { rewrite di_seq0. destruct (wd_n w =? 0) eqn:E0.
+        - assert (wd_n w = 0) by lia. rewrite H. reflexivity.
+        - apply seq_succ_wire. lia. }
+      constructor; cbn [wd_n wd_v wd_log wd_pend].
+      + lia.
+      + replace (wd_n w + 1 =? 0) with false by lia. exact Hsq.
+      + lia.
+      + lia.
+      + lia.
+      + intros n t dg' Hin. apply in_app_or in Hin as [Hin|[Hin|[]]].
+        * destruct (di_log0 _ _ _ Hin) as (A & B & C & D).
+          split; [lia|]. split; [exact B|]. split; [exact C|].
+          replace ((wd_n w + 1 - n) * (M + 1)) with ((wd_n w - n) * (M + 1) + (M + 1)) by ring. lia.
+        * injection Hin as <- <- <-. split; [lia|]. split; [exact Hk|]. split; [congruence|]. lia.
+      + intros l Hl. destruct (Z.eq_dec l (wd_n w + 1)) as [->|Hne].
+        * exists now, dg. apply in_or_app. right. left. reflexivity.
+        * destruct (di_complete0 l ltac:(lia)) as (t & dg' & Hin). exists t, dg'. apply in_or_app. left. exact Hin.
+      + destruct di_win0 as (m & acc & HR & Hm & W1 & W2). exists m, acc. split; [exact HR|]. split; [lia|]. split.
+        * intros n t dg' Hin. apply in_app_or in Hin as [Hin|[Hin|[]]].
+          -- destruct (W1 _ _ _ Hin) as [A|A]; [left; apply in_or_app; left; exact A|right; exact A].
+          -- injection Hin as <- <- <-. left. apply in_or_app. right. left. reflexivity.
+        * intros n t Hin. apply in_app_or in Hin as [Hin|[Hin|[]]].
+          -- destruct (W2 _ _ Hin) as (A & dg' & B). split; [exact A|]. exists dg'. apply in_or_app. left. exact B.
+          -- injection Hin as <- <-. split.
+             ++ intros Hx. pose proof (Rx_le _ _ _ _ HR Hx). lia.
+             ++ exists dg. apply in_or_app. right. left. reflexivity.
+      + lia.
+      + intros E. destruct (wd_pend w); discriminate.
+      + intros _. destruct (wd_pend w) as [|p r] eqn:Ep.
+        * exists (wd_n w + 1), now. split; [left; reflexivity|]. specialize (di_live2 eq_refl). lia.
+        * destruct di_live3 as (n & t & Hin & Hl); [discriminate|]. exists n, t. split; [apply in_or_app; left; exact Hin|exact Hl].
+      + unfold em_times in *. cbn [wd_log]. rewrite map_app. cbn [map fst snd].
+        apply gaps_le_snoc; [exact di_gaps0|]. rewrite di_last0. lia.
+      + unfold em_times in *. cbn [wd_log]. rewrite map_app. cbn [map fst snd]. apply last_snoc.
+  Qed.
+
+  Lemma log_time sx lkx bfy lry w clk tickx n t dg :
+    dir_inv sx lkx bfy lry w clk tickx -> In (n, t, dg) (wd_log w) -> t <= lkx.
+  Proof.
+    intros [] Hin. destruct (di_log0 _ _ _ Hin) as (A & _ & _ & D).
+    assert (0 <= (wd_n w - n) * (M + 1)) by (apply Z.mul_nonneg_nonneg; lia). lia.
+  Qed.
+
+  Lemma count_bound a : a * (M + 1) <= d -> a <= HALF - 1.
+  Proof.
+    intros H. assert (H' : a * (M + 1) <= (HALF - 1) * (M + 1)) by lia.
+    apply Z.mul_le_mono_pos_r in H'; lia.
+  Qed.
+
+  Lemma filter_id {A} (f : A -> bool) (l : list A) : (forall x, In x l -> f x = true) -> filter f l = l.
+  Proof.
+    induction l as [|a r IH]; intros H; [reflexivity|]. cbn [filter].
+    rewrite (H a (or_introl eq_refl)). f_equal. apply IH. intros x Hx. apply H. right. exact Hx.
+  Qed.
+
+  (* Y is offered s at time now; (bfy', lry') is what Conn.recv makes of it (rx_post) *)
+  Lemma dir_recv sx lkx bfy lry w clk tickx now s bfy' lry' :
+    dir_inv sx lkx bfy lry w clk tickx -> clk <= now -> on_time w d now -> src_ok (Some k) w d now s ->
+    match rx_of w s with
+    | RxDgram dg _ =>
+        match open_dgram (Some k) dg, bf_insert bfy (h_seq (d_hdr dg)) with
+        | Ok _, Ok bf => bfy' = bf /\ lry' = now
+        | _, _ => bfy' = bfy /\ lry' = lry
+        end
+    | _ => bfy' = bfy /\ lry' = lry
+    end ->
+    dir_inv sx lkx bfy' lry' (wd_present w s) now tickx.
+  Proof.
+    intros I Hn Ho Hs Hp. destruct s as [|i|dg orcs]; cbn [rx_of wd_present src_ok] in *.
+    - destruct Hp as [-> ->]. eapply dir_time; eassumption.
+    - destruct Hs as (t & dg & Hl & Hlife). rewrite Hl in Hp.
+      pose proof (wd_lookup_in _ _ _ _ Hl) as Hin.
+      pose proof I as I0. destruct I.
+      destruct (di_log0 _ _ _ Hin) as (Hi & Hka & Hsq & Hsp).
+      rewrite (open_ka _ _ Hka), Hsq in Hp.
+      destruct di_win0 as (m & acc & HR & Hm & W1 & W2).
+      assert (Hhalf : Z.abs (i - m) <= HALF).
+      { assert (B1 : wd_n w - i <= HALF - 1) by (apply count_bound; lia).
+        destruct (Z_le_gt_dec i m) as [Hle|Hgt]; [lia|].
+        destruct (di_complete0 (m + 1) ltac:(lia)) as (tl & dgl & Hinl).
+        destruct (W1 _ _ _ Hinl) as [Hpl|[Hal _]]; [|pose proof (Rx_le _ _ _ _ HR Hal); lia].
+        unfold on_time in Ho. rewrite Forall_forall in Ho. pose proof (Ho _ Hpl) as Hd'. cbn in Hd'.
+        destruct (di_log0 _ _ _ Hinl) as (_ & _ & _ & Hspl).
+        assert (B2 : wd_n w - (m + 1) <= HALF - 1) by (apply count_bound; lia). lia. }
+      pose proof (Rx_step _ _ _ i HR ltac:(lia) Hhalf) as Hstep.
+      destruct (bf_insert bfy (wire i)) as [bf|er].
+      + (* accepted *)
+        destruct Hp as [-> ->].
+        constructor; cbn [wd_n wd_v wd_log wd_pend]; auto; try lia.
+        * exists (Z.max m i), (i :: acc). split; [exact Hstep|]. split; [lia|]. split.
+          -- intros n t' dg' Hin'. destruct (Z.eq_dec n i) as [->|Hne].
+             ++ right. split; [left; reflexivity|]. pose proof (log_time _ _ _ _ _ _ _ _ _ _ I0 Hin'). lia.
+             ++ destruct (W1 _ _ _ Hin') as [A|[A B]].
+                ** left. apply filter_In. split; [exact A|]. cbn. lia.
+                ** right. split; [right; exact A|lia].
+          -- intros n t' Hin'. apply filter_In in Hin' as [Hin' Hne]. cbn in Hne.
+             destruct (W2 _ _ Hin') as (A & B). split; [|exact B].
+             intros [E|E]; [lia|exact (A E)].
+        * intros Hne. destruct (filter _ (wd_pend w)) as [|[n t'] r] eqn:Ef; [congruence|].
+          exists n, t'. split; [left; reflexivity|].
+          assert (Hin' : In (n, t') (filter (fun p => negb (fst p =? i)) (wd_pend w))) by (rewrite Ef; left; reflexivity).
+          apply filter_In in Hin' as [Hin' _]. destruct (W2 _ _ Hin') as (_ & dg' & B).
+          pose proof (log_time _ _ _ _ _ _ _ _ _ _ I0 B). lia.
+      + (* refused: a copy of it was accepted before *)
+        destruct Hp as [-> ->].
+        assert (Hf : filter (fun p => negb (fst p =? i)) (wd_pend w) = wd_pend w).
+        { apply filter_id. intros [n t'] Hin'. cbn. destruct (W2 _ _ Hin') as (A & _).
+          destruct (Z.eq_dec n i) as [->|Hne]; [contradiction|lia]. }
+        rewrite Hf. replace {| wd_n := wd_n w; wd_v := wd_v w; wd_log := wd_log w; wd_pend := wd_pend w |} with w by (destruct w; reflexivity).
+        eapply dir_time; eassumption.
+    - destruct (open_dgram (Some k) dg) as [ms|er] eqn:Eo; [exfalso; eapply Hs; reflexivity|].
+      destruct Hp as [-> ->]. eapply dir_time; eassumption.
+  Qed.
+End Direction.
+
+(* ================= Part 4: the pair ================= *)
+Section Pair.
+  Variables (e : env) (P : tparams) (k : Z) (cli0 srv0 : conn) (t0 : Z).
+  Hypothesis Hest : established k t0 cli0 srv0.
+  Hypothesis Hpar : params_ok P cli0 srv0.
+
+  Record tinv (n : tnet) : Prop := {
+    ti_cli : ep_ok k (c_ka_interval cli0) (c_send_interval cli0) (t_cli n);
+    ti_srv : ep_ok k (c_ka_interval srv0) (c_send_interval srv0) (t_srv n);
+    ti_swept : t_swept n = false;
+    ti_tkC : t_clk n - t_tickC n <= tp_tau P;
+    ti_tkS : t_clk n - t_tickS n <= tp_tau P;
+    ti_cs : dir_inv k (kmax cli0) (tp_tau P) (c_seq_send cli0) (base_time cli0 t0)
+              (c_seq_send (t_cli n)) (c_last_ka (t_cli n)) (c_bf_pkt (t_srv n)) (c_last_recv (t_srv n))
+              (t_cs n) (t_clk n) (t_tickC n);
+    ti_sc : dir_inv k (kmax srv0) (tp_tau P) (c_seq_send srv0) (base_time srv0 t0)
+              (c_seq_send (t_srv n)) (c_last_ka (t_srv n)) (c_bf_pkt (t_cli n)) (c_last_recv (t_cli n))
+              (t_sc n) (t_clk n) (t_tickS n) }.
+
+  Lemma dir_init x y : in_sync x y -> heard x y t0 -> 0 <= kmax x ->
+    dir_inv k (kmax x) (tp_tau P) (c_seq_send x) (base_time x t0)
+      (c_seq_send x) (c_last_ka x) (c_bf_pkt y) (c_last_recv y) (wd0 (c_seq_send x) (base_time x t0)) t0 t0.
+  Proof.
+    intros Hs (H1 & H2 & H3 & H4) HM.
+    destruct (in_sync_Rx _ _ Hs) as (m & acc & HR & -> & Hw & H0).
+    unfold base_time. constructor; cbn [wd0 wd_n wd_v wd_log wd_pend em_times map last gaps_le]; auto; try lia.
+    - intros n t dg [].
+    - exists (c_seq_send x), acc. split; [exact HR|]. split; [lia|]. split; [intros n t dg []|intros n t []].
+    - intros Hne. exfalso. apply Hne. reflexivity.
+  Qed.
+
+  Lemma tinv_init : tinv (tnet0 cli0 srv0 t0).
+  Proof.
+    destruct Hest as (Ec & Es & Scs & Ssc & Hcs & Hsc). destruct Hpar as (_ & Htau & MC & MS & _).
+    constructor; cbn [tnet0 t_cli t_srv t_swept t_cs t_sc t_clk t_tickC t_tickS].
+    - apply idle_ep_ok. exact Ec.
+    - apply idle_ep_ok. exact Es.
+    - reflexivity.
+    - lia.
+    - lia.
+    - apply dir_init; assumption.
+    - apply dir_init; assumption.
+  Qed.
+
+  Lemma wd_emit_nil w now : wd_emit w now [] = w.
+  Proof. reflexivity. Qed.
+
+  Lemma rx_good_of w s sx lkx bfy lry clk tickx M N0 v0 key :
+    dir_inv k M (tp_tau P) N0 v0 sx lkx bfy lry w clk tickx -> key = Some k ->
+    src_ok key w (tp_d P) (clk) s \/ True ->
+    forall now, src_ok key w (tp_d P) now s -> rx_good k (rx_of w s).
+  Proof.
+    intros I -> _ now Hs. destruct s as [|i|dg orcs]; cbn [rx_of rx_good src_ok] in *; [exact Logic.I| |right; exact Hs].
+    destruct Hs as (t & dg & Hl & _). rewrite Hl. left.
+    apply wd_lookup_in in Hl. destruct I. destruct (di_log0 _ _ _ Hl) as (_ & Hk & _). exact Hk.
+  Qed.
+
+  Lemma tinv_step n v : tinv n -> tok P n v -> tinv (tstep e P n v).
+  Proof.
+    intros [Ic Is Isw _ _ Ics Isc] (Hclk & HtC & HtS & HoC & HoS & Hsrc).
+    destruct Hpar as (Hd & Htau & HMC & HMS & HT & H5 & HrC & HrS).
+    destruct v as [now s|now s|now]; cbn [tev_time] in *; cbn [tstep].
+    - (* UdpClient.update *)
+      destruct (client_tick e (t_cli n) now (rx_of (t_sc n) s)) as [c' o] eqn:E.
+      pose proof (dir_safe _ _ _ _ _ _ Hd _ _ _ _ _ _ _ _ Isc Hclk HtS HoS) as Hsafe.
+      assert (Hg : rx_good k (rx_of (t_sc n) s)).
+      { eapply rx_good_of; [exact Isc|exact (eo_key _ _ _ _ Ic)|right; exact Logic.I|exact Hsrc]. }
+      assert (Hnd : c_last_recv (t_cli n) <= 0 \/ now <= c_last_recv (t_cli n) + 5 * TICKS) by (right; lia).
+      destruct (client_tick_ep _ _ _ _ _ _ _ _ _ Ic Hnd Hg E) as (Ic' & Rx & Em).
+      rewrite (eo_status _ _ _ _ Ic'). cbn [status_eqb status_code Z.eqb].
+      constructor; cbn.
+      + exact Ic'.
+      + exact Is.
+      + exact Isw.
+      + lia.
+      + lia.
+      + eapply (dir_emit _ _ _ _ _ HMC); try eassumption.
+      + rewrite (eo_key _ _ _ _ Ic) in Hsrc. eapply (dir_recv _ _ _ (tp_d P) _ _ HMS Htau HrS); try eassumption.
+        unfold rx_post in Rx. rewrite (eo_key _ _ _ _ Ic) in Rx. exact Rx.
+    - (* the server loop hands a datagram to the connection *)
+      rewrite Isw.
+      assert (Hg : rx_good k (rx_of (t_cs n) s)).
+      { eapply rx_good_of; [exact Ics|exact (eo_key _ _ _ _ Is)|right; exact Logic.I|exact Hsrc]. }
+      rewrite (eo_key _ _ _ _ Is) in Hsrc.
+      destruct (rx_of (t_cs n) s) as [|er|dg orcs] eqn:Er.
+      + constructor; cbn; auto; try lia; eapply dir_time; eassumption.
+      + destruct Hg.
+      + destruct (recv (t_srv n) now dg orcs) as [c' o] eqn:E.
+        destruct (recv_ep _ _ _ _ _ _ _ _ _ Is Hg E) as (Is' & Sq & Lk & _ & _ & Ne & Rx).
+        rewrite (dg_no_emit _ Ne), wd_emit_nil.
+        constructor; cbn.
+        * exact Ic.
+        * exact Is'.
+        * exact Isw.
+        * lia.
+        * lia.
+        * eapply (dir_recv _ _ _ (tp_d P) _ _ HMC Htau HrC); try eassumption. rewrite Er.
+          unfold rx_post in Rx. rewrite (eo_key _ _ _ _ Is) in Rx. exact Rx.
+        * rewrite Sq, Lk. eapply dir_time; eassumption.
+    - (* the server loop's sweep *)
+      rewrite Isw. unfold server_sweep.
+      rewrite (eo_status _ _ _ _ Is). cbn [status_eqb status_code Z.eqb Pos.eqb].
+      destruct (server_tick e (t_srv n) now) as [c' o] eqn:E.
+      destruct (server_tick_ep _ _ _ _ _ _ _ _ Is E) as (Is' & Lr & Bf & Em).
+      pose proof (dir_safe _ _ _ _ _ _ Hd _ _ _ _ _ _ _ _ Ics Hclk HtC HoC) as Hsafe.
+      assert (Hns : sweep_drops (tp_T P) (t_srv n) now = false).
+      { unfold sweep_drops, timedout. rewrite (eo_status _ _ _ _ Is). cbn [status_eqb status_code Z.eqb orb]. lia. }
+      rewrite Hns.
+      constructor; cbn.
+      + exact Ic.
+      + exact Is'.
+      + reflexivity.
+      + lia.
+      + lia.
+      + rewrite Lr, Bf. eapply dir_time; eassumption.
+      + eapply (dir_emit _ _ _ _ _ HMS); try eassumption.
+  Qed.
+
+  Lemma tinv_run vs : forall n, tinv n -> tvalid e P n vs -> tinv (trun e P n vs).
+  Proof.
+    induction vs as [|v r IH]; intros n I Hv; [exact I|].
+    cbn [tvalid] in Hv. destruct Hv as [Hok Hr]. cbn [trun fold_left]. apply IH; [|exact Hr].
+    apply tinv_step; assumption.
+  Qed.
+End Pair.
+
+(* ================= the theorems of Properties/C12.v ================= *)
+
+(* (1) neither side ever times out *)
+Theorem idle_pair_stays_up e P k cli srv t0 hs :
+  established k t0 cli srv -> params_ok P cli srv -> tvalid e P (tnet0 cli srv t0) hs ->
+  pair_up k (trun e P (tnet0 cli srv t0) hs).
+Proof.
+  intros He Hp Hv. pose proof (tinv_run e P k cli srv t0 Hp hs _ (tinv_init P k cli srv t0 He Hp) Hv) as I.
+  destruct I as [[] [] Sw _ _ _ _]. unfold pair_up. auto.
+Qed.
+
+Lemma dir_cadence k M tau N0 v0 sx lkx bfy lry w clk tickx :
+  dir_inv k M tau N0 v0 sx lkx bfy lry w clk tickx -> clk - tickx <= tau ->
+  cadence_ok (M + tau) v0 clk w /\ Forall (fun x => ka_dgram k (snd x)) (wd_log w).
+Proof.
+  intros I Ht. destruct I. split; [split; [assumption|rewrite di_last0; lia]|].
+  apply Forall_forall. intros [[n t] dg] Hin. destruct (di_log0 _ _ _ Hin) as (_ & Hk & _). exact Hk.
+Qed.
+
+(* (2) each side emits a keep-alive at least every keep-alive period + one tick, and nothing else *)
+Theorem idle_pair_cadence e P k cli srv t0 hs :
+  established k t0 cli srv -> params_ok P cli srv -> tvalid e P (tnet0 cli srv t0) hs ->
+  let n := trun e P (tnet0 cli srv t0) hs in
+  (cadence_ok (kmax cli + tp_tau P) (base_time cli t0) (t_clk n) (t_cs n)
+   /\ Forall (fun x => ka_dgram k (snd x)) (wd_log (t_cs n))) /\
+  (cadence_ok (kmax srv + tp_tau P) (base_time srv t0) (t_clk n) (t_sc n)
+   /\ Forall (fun x => ka_dgram k (snd x)) (wd_log (t_sc n))).
+Proof.
+  intros He Hp Hv. pose proof (tinv_run e P k cli srv t0 Hp hs _ (tinv_init P k cli srv t0 He Hp) Hv) as I.
+  destruct I as [_ _ _ TC TS Ics Isc]. cbv zeta. split; eapply dir_cadence; eassumption.
+Qed.
+
+(* every prefix of an admissible history is admissible (so the two theorems speak about every
+   moment of a history, not only its end) *)
+Lemma tvalid_app e P vs1 : forall n vs2, tvalid e P n (vs1 ++ vs2) -> tvalid e P n vs1.
+Proof.
+  induction vs1 as [|v r IH]; intros n vs2 H; [exact I|].
+  cbn [app tvalid] in *. destruct H as [H1 H2]. split; [exact H1|eapply IH; exact H2].
+Qed.
+
+(* ================= the executable hypotheses imply the stated ones ================= *)
+Lemma src_okb_ok key w d now s : src_okb key w d now s = true -> src_ok key w d now s.
+Proof.
+  destruct s as [|i|dg orcs]; cbn [src_okb src_ok]; [auto| |].
+  - destruct (wd_lookup w i) as [[t dg]|]; [|discriminate]. intros H. exists t, dg. split; [reflexivity|lia].
+  - destruct (open_dgram key dg); [discriminate|]. intros _ ms. discriminate.
+Qed.
+
+Lemma on_timeb_ok w d now : on_timeb w d now = true -> on_time w d now.
+Proof.
+  unfold on_timeb, on_time. rewrite forallb_forall, Forall_forall. intros H p Hp. specialize (H p Hp). lia.
+Qed.
+
+Lemma tokb_ok P n v : tokb P n v = true -> tok P n v.
+Proof.
+  unfold tokb, tok. cbv zeta. rewrite !andb_true_iff. intros [[[[[A B] C] D] E] F].
+  split; [lia|]. split; [lia|]. split; [lia|].
+  split; [apply on_timeb_ok; exact D|]. split; [apply on_timeb_ok; exact E|].
+  destruct v; try apply src_okb_ok; auto.
+Qed.
+
+Lemma tvalidb_ok e P vs : forall n, tvalidb e P n vs = true -> tvalid e P n vs.
+Proof.
+  induction vs as [|v r IH]; intros n H; [exact I|]. cbn [tvalidb tvalid] in *.
+  apply andb_prop in H as [H1 H2]. split; [apply tokb_ok; exact H1|apply IH; exact H2].
+Qed.
+
+Lemma idle_epb_ok k c : idle_epb k c = true -> idle_ep k c.
+Proof.
+  unfold idle_epb, idle_ep. rewrite !andb_true_iff. intros [[[[[[A B] C] D] E] F] G].
+  split; [destruct (c_status c); try discriminate; reflexivity|].
+  split; [destruct (c_key c) as [k'|]; [f_equal; lia|discriminate]|].
+  split; [destruct (c_outgoing c); [reflexivity|discriminate]|].
+  split; [destruct (c_pretry_msg c); [reflexivity|discriminate]|].
+  split; [exact E|]. split; lia.
+Qed.
+
+Lemma in_syncb_ok x y : in_syncb x y = true -> in_sync x y.
+Proof.
+  unfold in_syncb, in_sync. rewrite !andb_true_iff, orb_true_iff. intros [[[[[[A B] C] D] E] F] G].
+  repeat split; lia.
+Qed.
+
+Lemma heardb_ok x y t0 : heardb x y t0 = true -> heard x y t0.
+Proof. unfold heardb, heard. rewrite !andb_true_iff. intros [[[A B] C] D]. repeat split; lia. Qed.
+
+Lemma establishedb_ok k t0 cli srv : establishedb k t0 cli srv = true -> established k t0 cli srv.
+Proof.
+  unfold establishedb, established. rewrite !andb_true_iff. intros [[[[[A B] C] D] E] F].
+  split; [apply idle_epb_ok; exact A|]. split; [apply idle_epb_ok; exact B|].
+  split; [apply in_syncb_ok; exact C|]. split; [apply in_syncb_ok; exact D|].
+  split; apply heardb_ok; assumption.
+Qed.
+
+Lemma params_okb_ok P cli srv : params_okb P cli srv = true -> params_ok P cli srv.
+Proof.
+  unfold params_okb, params_ok. rewrite !andb_true_iff. intros [[[[[[[A B] C] D] E] F] G] H].
+  repeat split; lia.
+Qed.
